@@ -169,11 +169,27 @@ def assign_alphabet(A, names):
         "@[a]=b": {m.ExprMem(a, 32): b},
         "b=@[a]": {b: m.ExprMem(a, 32)},
         "@8[sp+5]=a": {m.ExprMem(sp + m.ExprInt(5, 32), 8): a[:8]},
+        # narrow stores inside the 32-bit slot @[sp+4] (bytes 1, 2, 3 and the upper word), reads of the slot / of its parts
+        "@8[sp+5]=b": {m.ExprMem(sp + m.ExprInt(5, 32), 8): b[:8]},
+        "@8[sp+6]=b": {m.ExprMem(sp + m.ExprInt(6, 32), 8): b[:8]},
+        "@8[sp+7]=b": {m.ExprMem(sp + m.ExprInt(7, 32), 8): b[:8]},
+        "@16[sp+6]=b": {m.ExprMem(sp + m.ExprInt(6, 32), 16): b[:16]},
+        "r=@[sp+4]": {r: m.ExprMem(sp + m.ExprInt(4, 32), 32)},
+        "r=@8[sp+6]": {r: m.ExprMem(sp + m.ExprInt(6, 32), 8).zeroExtend(32)},
+        "r=@16[sp+6]": {r: m.ExprMem(sp + m.ExprInt(6, 32), 16).zeroExtend(32)},
+        "b=5": {b: m.ExprInt(5, 32)},
+        "b=2": {b: m.ExprInt(2, 32)},
+        "r=b+1": {r: b + one},
         "sp=sp-4": {sp: sp - m.ExprInt(4, 32)},
         "sp=sp+4": {sp: sp + m.ExprInt(4, 32)},
         "a=a<<1": {a: a << one},
         "a=-a": {a: -a},
         "r=call(a)": {r: m.ExprOp("call_func_ret", m.ExprInt(0x1000, 32), a)},
+        # read-modify-write of a memory cell whose stored bytes are NON byte-aligned slices of the same cell (C12/C13)
+        "@[sp+4]=@[sp+4]>>4": {m.ExprMem(sp + m.ExprInt(4, 32), 32): m.ExprMem(sp + m.ExprInt(4, 32), 32) >> m.ExprInt(4, 32)},
+        "@[sp+4]=@[sp+4]<<4": {m.ExprMem(sp + m.ExprInt(4, 32), 32): m.ExprMem(sp + m.ExprInt(4, 32), 32) << m.ExprInt(4, 32)},
+        "@8[sp+5]=@[sp+4][12:20]": {m.ExprMem(sp + m.ExprInt(5, 32), 8): m.ExprMem(sp + m.ExprInt(4, 32), 32)[12:20]},
+        "@[a]=@[a]>>1": {m.ExprMem(a, 32): m.ExprMem(a, 32) >> one},
     }
     return [(n, table[n]) for n in names]
 
